@@ -373,6 +373,89 @@ Section COPE.
     - apply Forall2_app; [apply untied_shape, F|exact F2].
     - intros c. rewrite !in_app_iff, !untied_in, S, S2. reflexivity.
   Qed.
+  (* ---- second order as well: position by position the same (first-order) Copeland score *)
+  Lemma gnb_tie_same (d : list (C * Z)) n T1 T2 :
+    In (TieR T1) (get_n_best zle_bool d n) -> In (TieR T2) (get_n_best zle_bool d n) -> T1 = T2.
+  Proof.
+    unfold get_n_best. destruct (Nat.ltb n _).
+    2:{ intros H. apply in_map_iff in H. destruct H as (? & H & _). discriminate. }
+    destruct (nth_error _ (n - 1)) as [[c1 thr]|]; [|intros []].
+    destruct (nth_error _ n) as [[c2 nxt]|]; [|intros []].
+    destruct (eqv zle_bool nxt thr).
+    2:{ intros H. apply in_map_iff in H. destruct H as (? & H & _). discriminate. }
+    intros H1 H2. apply in_app_or in H1, H2.
+    destruct H1 as [H1|H1]; [apply in_map_iff in H1; destruct H1 as (? & H1 & _); discriminate|].
+    destruct H2 as [H2|H2]; [apply in_map_iff in H2; destruct H2 as (? & H2 & _); discriminate|].
+    apply repeat_spec in H1, H2. congruence.
+  Qed.
+
+  Lemma members_in (r : list (res C)) a : In a (res_members r) <-> exists T, In (TieR T) r /\ In a T.
+  Proof.
+    unfold res_members. rewrite in_flat_map. split.
+    - intros ([c|T] & Hx & Ha); [destruct Ha|]. exists T. auto.
+    - intros (T & HT & Ha). exists (TieR T). auto.
+  Qed.
+
+  Lemma tied_same_score (d : list (C * Z)) n a b : NoDup (map fst d) ->
+    In a (res_members (get_n_best zle_bool d n)) -> In b (res_members (get_n_best zle_bool d n)) ->
+    In a (map fst d) /\ In b (map fst d) /\ score_of d a = score_of d b.
+  Proof.
+    intros N Ha Hb. apply members_in in Ha, Hb. destruct Ha as (T & HT & Ha), Hb as (T' & HT' & Hb).
+    rewrite <- (gnb_tie_same d n T T' HT HT') in Hb.
+    destruct (get_n_best_tie_members zle_bool zle_trans d n T HT) as (thr & -> & _).
+    assert (H : forall x, In x (map fst (filter (fun it : C * Z => eqv zle_bool (snd it) thr) d)) -> In x (map fst d) /\ score_of d x = thr).
+    { intros x Hx. apply in_map_iff in Hx. destruct Hx as ([x0 vx] & E & Hin). simpl in E. subst x0. apply filter_In in Hin.
+      destruct Hin as [Hin Hf]. simpl in Hf. apply zeqv_eq in Hf. subst vx. split; [apply in_map_iff; exists (x, thr); auto|apply In_score_of; assumption]. }
+    destruct (H a Ha) as [A1 A2]. destruct (H b Hb) as [B1 B2]. split; [exact A1|]. split; [exact B1|congruence].
+  Qed.
+
+  Lemma untied_relz d d' r r' : Forall2 (res_relz d d') r r' -> Forall2 (res_relz d d') (res_untied r) (res_untied r').
+  Proof.
+    induction 1 as [|x y r r' H _ IH]; [constructor|]. simpl. destruct x, y; simpl in H; try contradiction; [|exact IH].
+    constructor; [exact H|exact IH].
+  Qed.
+
+  Lemma cmem_true_in c l : cmem c l = true -> In c l.
+  Proof. intros H. destruct (in_dec Pos.eq_dec c l) as [I|I]; [exact I|]. apply cmem_false in I. congruence. Qed.
+
+  Theorem copeland_sim so n : Forall2 (res_relz (cscores v) (cscores v')) (copeland so v n) (copeland so v' n).
+  Proof.
+    pose proof (cscores_nodup v) as N. pose proof cscores_perm as P.
+    pose proof (gnbz_sim _ _ N P n) as FZ.
+    assert (F : Forall2 res_shape (get_n_best zle_bool (cscores v) n) (get_n_best zle_bool (cscores v') n)) by (eapply F2_impl'; [apply relz_shape|exact FZ]).
+    pose proof (tied_same_score (cscores v) n) as TS.
+    rewrite !copeland_unfold2. cbv zeta.
+    set (best := get_n_best zle_bool (cscores v) n) in *. set (best' := get_n_best zle_bool (cscores v') n) in *.
+    destruct so; cbn [andb]; [|exact FZ].
+    rewrite <- (has_tie_shape _ _ F). destruct (has_tie best); [|exact FZ].
+    rewrite <- (F2_len _ _ _ F), <- (F2_len _ _ _ (untied_shape _ _ F)).
+    set (k := (length best - length (res_untied best))%nat).
+    pose proof (members_shape _ _ F) as PT.
+    set (tied := res_members best) in *. set (tied' := res_members best') in *.
+    rewrite (so_acc tied (fun x => dget_or (cscores v) x 0)), (so_acc tied' (fun x => dget_or (cscores v') x 0)).
+    set (so0 := flat_map (fun cs : C * Z => if cmem (fst cs) tied then [(fst cs, 0)] else []) (cscores v)).
+    set (so0' := flat_map (fun cs : C * Z => if cmem (fst cs) tied' then [(fst cs, 0)] else []) (cscores v')).
+    destruct (so0_keys tied (cscores v) N) as (A1 & A2 & A3). fold so0 in A1, A2, A3.
+    destruct (so0_keys tied' (cscores v') (perm_nodup' _ _ N P)) as (B1 & B2 & B3). fold so0' in B1, B2, B3.
+    assert (P0 : Permutation so0 so0').
+    { apply dict_perm; try assumption.
+      - intros c. rewrite A2, B2, (cmem_perm c tied tied' PT), (perm_keys _ _ P c). tauto.
+      - intros c _. rewrite A3, B3. reflexivity. }
+    apply Forall2_app; [apply untied_relz, FZ|].
+    match goal with |- Forall2 _ (get_n_best zle_bool ?d k) (get_n_best zle_bool ?d' k) =>
+      assert (PS : Permutation d d'); [|assert (NS : NoDup (map fst d)) by (apply acc_keys; exact A1);
+        assert (KS : forall c, In c (map fst d) -> In c tied); [|pose proof (gnbz_sim d d' NS PS k) as F2]] end.
+    { apply acc_perm; [|exact P0|exact A1].
+      erewrite flat_map_ext; [apply flat_map_perm, wins_perm; assumption|].
+      intros p. rewrite (cmem_perm _ _ _ PT). pose proof (perm_score _ _ N P (snd p)) as E. unfold score_of in E. rewrite E. reflexivity. }
+    { intros c Hc. apply (acc_keys _ so0 A1) in Hc. destruct Hc as [Hc|Hc].
+      - apply A2 in Hc. apply cmem_true_in. tauto.
+      - apply in_map_iff in Hc. destruct Hc as ([c0 x] & E & Hin). simpl in E. subst c0. apply in_flat_map in Hin.
+        destruct Hin as (p & _ & Hin). destruct (cmem (fst p) tied) eqn:Em; [|destruct Hin].
+        destruct Hin as [Hin|[]]. injection Hin as <- _. apply cmem_true_in. exact Em. }
+    eapply F2_impl'; [|exact F2]. intros [a|T] [b|T']; simpl; try tauto. intros (Ia & Ib & _).
+    apply (TS a b N); apply KS; assumption.
+  Qed.
 End COPE.
 
 (* ---------------------------------------------------------------- minimax *)
